@@ -179,6 +179,9 @@ def concat(iters, axis=0):
     if model is None:
         return np.concatenate(iters, axis)
 
+    num_var = max([num_var] + [item.linear.shape[1] for item in iters
+                               if isinstance(item, Affine)])
+
     for item in iters:
         if isinstance(item, (Real, np.ndarray)):
             item_value = np.array(item)
